@@ -76,7 +76,7 @@ pub fn gen_any_request(rng: &mut Rng, keys: &[Vec<u8>], p: &Profile, allow_unimp
         // wrong shape for the opcode, but passing every listed validity rule
         match rng.below(5) {
             0 => {
-                let n = *rng.pick(&[0usize, 4, 8, 12, 20]);
+                let n = if rng.chance(1, 2) { rng.below(21) as usize } else { *rng.pick(&[0usize, 4, 8, 12, 20]) };
                 r.raw_extras = Some(rng.bytes(n));
             }
             1 => {
@@ -95,6 +95,11 @@ pub fn gen_any_request(rng: &mut Rng, keys: &[Vec<u8>], p: &Profile, allow_unimp
                 r.raw_extras = Some(rng.bytes(8));
             }
         }
+    }
+    // the reserved (vbucket) field of a request is not part of any rule: it must not matter
+    // (it sits where the status sits in a response)
+    if rng.chance(1, 10) {
+        r.vbucket = 1 + (rng.next() % 0xffff) as u16;
     }
     r
 }
